@@ -41,7 +41,7 @@ def nodeOK : Nat → PT → Bool
   | 0, _ => false
   | f + 1, p =>
     match p.children with
-    | [] => decide (p.ts ≤ p.te) && decide (p.ss ≤ p.se)
+    | [] => decide (p.ts ≤ p.te)   -- a token that straddles a template-loop boundary has a reversed source slice (DESIGN §10)
     | c :: cs =>
       let sp := spanOfChildren (c :: cs)
       (p.ts == sp.1 && p.te == sp.2.1 && p.ss == sp.2.2.1 && p.se == sp.2.2.2) &&
